@@ -1,3 +1,4 @@
+import LalrpopModel.Props.LRPrefixThms
 import LalrpopModel.Props.LRGenericThms
 import LalrpopModel.Props.LRSoundThms
 import LalrpopModel.Props.C01
@@ -12,5 +13,5 @@ The theorems deciding this property (audited by `checks/c04.py` with `#print axi
   and all tokens were pulled.
 * `no_extra_token_unless_start_reduce_under_lookahead`: `ExtraToken` needs a start-production reduce entry under a
   terminal lookahead (the validator's `checkItems` forces the start item's lookahead to be EOF).
-* Props/LRPrefixThms (when present): `error_at_first_bad_token`, `eof_error` (sentence-prefix characterisation).
+* Props/LRPrefixThms: `error_at_first_bad_token`, `eof_error` (sentence-prefix characterisation).
 -/
